@@ -256,6 +256,16 @@ class MultilineArgumentDetector(FullAstVisitor):
         super().visit_ArgumentNode(node)
 
 
+class CommentDetector(FullAstVisitor):
+
+    def __init__(self) -> None:
+        self.has_comments = False
+
+    def enter_node(self, node: mparser.BaseNode) -> None:
+        if node.whitespaces and '#' in node.whitespaces.value:
+            self.has_comments = True
+
+
 class MultilineParenthesesDetector(FullAstVisitor):
 
     def __init__(self) -> None:
@@ -323,6 +333,14 @@ class TrimWhitespaces(FullAstVisitor):
             else:
                 val = getattr(node, 'value', '')
             return pathname_sort_key(val)
+
+        # Comments are attached to the arguments and to the commas between them:
+        # reordering the arguments would reorder the comments, or separate a
+        # comment from the argument it describes.
+        comment_detector = CommentDetector()
+        node.accept(comment_detector)
+        if comment_detector.has_comments:
+            return
 
         node.arguments.sort(key=sort_key)
 
